@@ -71,6 +71,10 @@ def representatives(kind, rnd):
         add("header-garbage", True, body=GOOD % (2, 2), headers={"Content-Type": "-"})
         add("header-garbage", True, body=GOOD % (2, 2), headers={"Accept": "garbage/*;q=x"})
         add("header-garbage", True, body=GOOD % (2, 2), headers={"Accept": "-"})
+        # media ranges with parameters of every malformed shape (a parameter without a value, an empty one, q out of range)
+        for a in ("text/event-stream;q", "application/json, text/event-stream; q ;x", "text/event-stream;q=", "application/json;=1", ";", ",,,", "text/event-stream;;;",
+                  "application/json;q=0, text/event-stream", "*/*;q=0", "application/json;q=7, text/event-stream;Q", "text/event-stream;q=\"", "a" * 9000):
+            add("header-garbage", True, body=GOOD % (2, 2), headers={"Accept": a})
         add("session-garbage", True, body=GOOD % (2, 2), session="garbage")
         add("session-garbage", True, body=GOOD % (2, 2), headers={"Mcp-Session-Id": "x" * 9000})
     for b in ('{"jsonrpc":"2.0","id":99,"result":{}}', '{"jsonrpc":"2.0","id":"never","result":{"roots":[]}}', '{"jsonrpc":"2.0","id":1.5,"result":null}'):
